@@ -389,6 +389,20 @@ func ruleW1(r *Run) {
 			lo, up := w.bounds(info, factsWithSwitch(parents, ret), v, fd.Body, ret.Pos())
 			okLower = lo
 			okUpper = up
+			// the upper bound may sit inside a disjunction with the reader-mode test: reader != nil || n <= tail-head
+			for _, fc := range factsWithSwitch(parents, ret) {
+				if fc.neg {
+					continue
+				}
+				ast.Inspect(fc.e, func(k ast.Node) bool {
+					if be, ok := k.(*ast.BinaryExpr); ok {
+						if (be.Op == token.LEQ || be.Op == token.LSS) && identObj(info, be.X) == v || (be.Op == token.GEQ || be.Op == token.GTR) && identObj(info, be.Y) == v {
+							okUpper = true
+						}
+					}
+					return true
+				})
+			}
 			// the upper bound is conditional on in-memory input: accept a comparison n > E in an
 			// early-return guard
 			ast.Inspect(fd.Body, func(m ast.Node) bool {
